@@ -133,11 +133,16 @@ def compare_with_summaries(ctx, g, observed):
         pred_other = [ld for ld in o["leads"] if ld["kind"] in ("mutation", "fit-receiver")]
         obs_params = {n.split("__")[0] for k, n in obs if k == "param-write"}
         obs_other = {(k, n) for k, n in obs if k in ("model-altered", "array-modified")}
+        # a wrapper's summary relies on the contract of its inner strategy (`callInner`): effects of a
+        # defective inner strategy are attributed to that strategy's own obligation
+        modular = o.get("inner") and g["flips"]
         for p in sorted(obs_params - pred_params):
             if not pred_other:
-                ctx.broken.append(f"translator missed: {o['cls']}.query changes get_params()['{p}'] on the real code but its summary has no such write")
+                msg = f"translator missed: {o['cls']}.query changes get_params()['{p}'] on the real code but its summary has no such write"
+                (ctx.notes.setdefault("effects_through_inner_strategy", []) if modular else ctx.broken).append(msg)
         if obs_other and not pred_other and not pred_params:
-            ctx.broken.append(f"translator missed: {o['cls']}.query {sorted(obs_other)} observed on the real code but its summary is FrameOK")
+            msg = f"translator missed: {o['cls']}.query {sorted(obs_other)} observed on the real code but its summary is FrameOK"
+            (ctx.notes.setdefault("effects_through_inner_strategy", []) if modular else ctx.broken).append(msg)
         why = exp.get(o["name"], {}).get("why", "")
         if not o["value"] and why.startswith("finding") and not obs:
             ctx.broken.append(f"lead not reproduced: summary of {o['cls']}.query violates FrameOK ({sorted(pred_params) or [ld['path'] for ld in pred_other]}) and is recorded as a finding, but no configuration shows it on the real code")
